@@ -239,7 +239,9 @@ func genC09(g *Gen) *Plan {
 		if g.p(0.3) {
 			rec.ETag = `"abc"`
 		}
-		if g.p(0.08) {
+		if g.p(0.08) && g.Tier != "thorough" {
+			// (quick tier only: the thorough tier repeats every request 1500 times and the history
+			// keeps every body)
 			// a body that compresses several hundred times: the record is a few KB, the body 3 MB
 			rec.Size = 3_000_000
 			rec.Class = "rep"
